@@ -45,6 +45,8 @@ MIN_COUNTERS = {
               'exit_fault_blocks_checked': 200, 'literal_int_targets': 300,
               'blocks_held_open_checked': 15, 'alive_ticks_inside_open_blocks': 15,
               'clumped_blocks_checked': 5, 'stream_cases_checked': 40,
+              'destinations_checked': 50_000, 'node_ids_judged': 20_000,
+              'histories_with_node_id_wrap_configuration': 500,
               'stream_cases_with_chunks_inside_block': 15,
               'stream_cases_with_chunks_outside_block': 15,
               'oracle_selftests': 1},
@@ -56,6 +58,8 @@ MIN_COUNTERS = {
                  'exit_fault_blocks_checked': 5000, 'literal_int_targets': 5000,
                  'blocks_held_open_checked': 300, 'alive_ticks_inside_open_blocks': 300,
                  'clumped_blocks_checked': 100, 'stream_cases_checked': 1000,
+                 'destinations_checked': 1_000_000, 'node_ids_judged': 500_000,
+                 'histories_with_node_id_wrap_configuration': 10_000,
                  'stream_cases_with_chunks_inside_block': 400,
                  'stream_cases_with_chunks_outside_block': 400,
                  'oracle_selftests': 1},
@@ -79,6 +83,12 @@ def plan(tier, seed):
     n = 2000 if quick else 60_000
     for p, (f, k) in enumerate(split(n, 2)):
         shards.append({'name': f'rt{p}', 'mode': 'rt', 'kind': 'rt',
+                       'first_case': f, 'n': k, 'secs': secs,
+                       'hard_timeout': secs + 120})
+    # a second, non-default server in real time (datagram destinations)
+    n = 800 if quick else 30_000
+    for p, (f, k) in enumerate(split(n, 1 if quick else 2)):
+        shards.append({'name': f'rtmulti{p}', 'mode': 'rt', 'kind': 'rtmulti',
                        'first_case': f, 'n': k, 'secs': secs,
                        'hard_timeout': secs + 120})
     n = 1600 if quick else 60_000
@@ -127,8 +137,9 @@ def run_shard(spec, acc):
     m.Buffer, m.ControlBus, m.AudioBus = buffer.Buffer, bus.ControlBus, bus.AudioBus
 
     kind = spec['shard']['kind']
-    mode = 'rt' if kind in ('rt', 'rtsync', 'rtalive', 'rtbig', 'rtstream') else 'nrt'
-    multi = kind == 'multi'
+    mode = 'rt' if kind in ('rt', 'rtsync', 'rtalive', 'rtbig', 'rtstream',
+                            'rtmulti') else 'nrt'
+    multi = kind in ('multi', 'rtmulti')
     if multi:
         server = Server('vf17', NetAddr('127.0.0.1', 57917), ServerOptions())
         server.latency = 0
@@ -184,6 +195,13 @@ def run_shard(spec, acc):
             ml = rng.choice([2, 2, 3, 4, 8])
             cid = rng.randrange(ml)
             server.options.max_logins = ml
+        # the id counter starts a few ids below the top of the client's 26 bit
+        # field in some histories, so that the wrap-around is reached
+        first_id = 1000
+        if kind in ('nrt', 'multi', 'rt', 'rtmulti') and rng.random() < 0.2:
+            first_id = model_alloc.ID_SPAN - 1 - rng.randint(0, 12)
+            acc.count('histories_with_node_id_wrap_configuration')
+        server.options.initial_node_id = first_id
         server._set_client_id(cid)
         if server.client_id != cid:
             acc.mark_inconclusive('could not set the client id')
@@ -191,6 +209,7 @@ def run_shard(spec, acc):
         ledger.attach(server)
         cap.reset()
         runner = c17_exec.Runner(m, server, mode, cap, ledger, acc.count)
+        runner.node_id_model = model_alloc.NodeIdModel(cid, first_id)
         sig = h64(repr(prog))
         try:
             runner.run(prog)
